@@ -116,6 +116,7 @@ pub open spec fn mc_painted(o: &StateMachine, f: &StateMachine, mp: MergeParents
     &&& f.state == State::HunkZero(DiffType::Combined(mp, InMergeConflict::No), None)
     &&& f.painter.minus_lines@ == o.painter.minus_lines@ && f.painter.plus_lines@ == o.painter.plus_lines@
     &&& f.painter.merge_conflict_commit_names == o.painter.merge_conflict_commit_names
+    &&& (f.painter.line_numbers_data is Some) == (o.painter.line_numbers_data is Some)
     &&& exists|b1: Seq<char>, b2: Seq<char>| #[trigger] mc_bufs_ok(o, 2, b1, b2)
          && f.painter.writer.hist() == mc_hist(o, 2, b1, b2).push(Ev::Text(mc_bar_text(o.config.merge_conflict_end_symbol@, o.config), true))
 }
